@@ -71,6 +71,7 @@ func (e *Exec) runBody(fn *ssa.Function, args []Val, binds []Val, st *State, pc 
 	e.stack = append(e.stack, fn)
 	defer func() { e.stack = e.stack[:len(e.stack)-1] }()
 
+	e.pcNow = pc
 	fr.findLoops()
 	order := fr.rpo()
 	for _, b := range order {
@@ -309,6 +310,7 @@ func (fr *Frame) execBlock(b *ssa.BasicBlock, st0 *State) {
 	}
 	fr.reach[b] = rc
 	fr.pc = rc
+	e.pcNow = rc
 	fr.cur = b
 	fr.st = e.mergeStates(conds, states)
 
@@ -414,8 +416,8 @@ func (fr *Frame) loopWrites(li *loopInfo) (keys map[string]bool, all bool) {
 				case "append", "copy":
 					if len(cc.Args) > 0 {
 						if sl, ok := cc.Args[0].Type().Underlying().(*types.Slice); ok {
-							for k := range leafSorts(sl.Elem()) {
-								keys[elemKey(sl.Elem(), k)] = true
+							for _, k := range fr.e.keysOfType(sl.Elem(), true) {
+								keys[k] = true
 							}
 						}
 					}
